@@ -356,7 +356,7 @@ type forwarder struct {
 	w       *World
 	h       *Handler // set for a northbound handler's private stream
 	onlyKey string   // a handler only expects events of its own transaction
-	inject chan int
+	inject  chan int
 
 	mu           sync.Mutex
 	cond         *sync.Cond
